@@ -10,6 +10,7 @@ import Lox.Dec.Drv
 import Lox.Dec.DrvTerminals
 import Lox.Dec.DrvAssign
 import Lox.Dec.DrvAnalyze
+import Lox.Dec.DrvFrontText
 /-! Line-protocol driver: one case per input line `area.op payload`, one answer per output line.
 Core-only imports so that this links as a `lean_exe`. -/
 
@@ -24,7 +25,7 @@ def dispatch (line : String) : String :=
     | "table" => Lox.Table.handle op payload
     | "lr" => ((Lox.LR.handle op payload).orElse fun _ => Lox.LR.handleDesugar op payload).orElse fun _ => Lox.LR.Rt.handleRecovery op payload
     | "lex" => (Lox.Lex.handle op payload).orElse fun _ => Lox.Lex.Rt.handleRuntime op payload
-    | "dec" => (((Lox.Dec.handle op payload).orElse fun _ => Lox.Dec.Terminals.handleTerminals op payload).orElse fun _ => Lox.Dec.Assign.handleAssign op payload).orElse fun _ => Lox.Dec.Analyze.handleAnalyze op payload
+    | "dec" => ((((Lox.Dec.handle op payload).orElse fun _ => Lox.Dec.Terminals.handleTerminals op payload).orElse fun _ => Lox.Dec.Assign.handleAssign op payload).orElse fun _ => Lox.Dec.Analyze.handleAnalyze op payload).orElse fun _ => Lox.Dec.FrontText.handleFrontText op payload
     | _ => none
   r.getD "bad-op"
 
